@@ -328,15 +328,7 @@ def _check_dep_coverage(ctx, model, dm):
     mem = model.lookup(dm, "combine")
     ok = False
     if mem is not None and mem.kind == "func":
-        alias = _grows_a_child_result(mem.node)
-        ctx.ob("O/DependencyMapper/combine/result-is-fresh", alias is None,
-               where(mem), "the union is built in a set of its own" if alias is
-               None else
-               f"combine updates '{alias}' in place, and '{alias}' is one of the "
-               "child results it was handed: that set may be stored (the "
-               "look-aside cache of the cached variant, the wrapper cache of "
-               "the CSE mix-in), so a later query of the same sub-expression "
-               "reports its siblings' variables too: m(x + y); m(x) -> {x, y}")
+        alias = combine_result_is_fresh(ctx, model, dm)
         verdict = _is_union_of_all(mem.node) if alias is None else False
         if verdict is None:
             raise AnalysisError("Collector.combine: the way the child results "
@@ -345,6 +337,23 @@ def _check_dep_coverage(ctx, model, dm):
     ctx.ob("K/DependencyMapper/combine", ok, where(mem) if mem else dm.loc(),
            "combine = union of all child results" if ok else
            "combine is not reduce(operator.or_, values, set())")
+
+
+def combine_result_is_fresh(ctx, model, dm):
+    """shared with C05: a memoizing collector hands out the stored set itself"""
+    mem = model.lookup(dm, "combine")
+    if mem is None or mem.kind != "func":
+        raise AnalysisError("DependencyMapper.combine not found")
+    alias = _grows_a_child_result(mem.node)
+    ctx.ob("O/DependencyMapper/combine/result-is-fresh", alias is None,
+           where(mem), "the union is built in a set of its own" if alias is
+           None else
+           f"combine updates '{alias}' in place, and '{alias}' is one of the "
+           "child results it was handed: that set may be stored (the "
+           "look-aside cache of the cached variant, the wrapper cache of "
+           "the CSE mix-in), so a later query of the same sub-expression "
+           "reports its siblings' variables too: m(x + y); m(x) -> {x, y}")
+    return alias
 
 
 def _grows_a_child_result(fn):
